@@ -26,6 +26,11 @@ na = [{'property_id': p, 'reason': st['not_applicable'][p]} for p in props if p 
 for p in props:
     if p not in cfg and p not in st['not_applicable']:
         raise SystemExit('property %s neither claimed nor in not_applicable' % p)
+serves = {'verus-units': [p for p in props if p in cfg and cfg[p].get('verus')],
+          'kani-contracts': [p for p in props if p in cfg and cfg[p].get('kani')],
+          'native-replay': [p for p in props if p in cfg and (cfg[p].get('native') or cfg[p].get('witness'))]}
+for e in st['engines']:
+    e['serves_properties'] = serves.get(e['name'], e.get('serves_properties', []))
 m = {'version': 1, 'setup_cmd': st['setup_cmd'], 'hooks': st['hooks'], 'engines': st['engines'], 'checks': checks,
      'notes': st['notes'], 'not_applicable': na}
 json.dump(m, open(os.path.join(V, 'MANIFEST.json'), 'w'), indent=1)
